@@ -17,6 +17,7 @@ def run(idx, rep, tier):
     unitdir.r_unitdir(idx, rep)
     mink.r_par(idx, rep)
     mink.r_swaprows(idx, rep)
+    mink.r_sameRow(idx, rep, floor=0)
     mink.r_mink(idx, rep, modules=["distance3d.mpr", "distance3d.minkowski"], floor=8)
     loops.r_loop(idx, rep, ["distance3d.mpr"], floor=2)
     ericson.r_ericson(idx, rep)
